@@ -128,12 +128,13 @@ class Driver:
 
 
 def known_findings(pid):
-    """[(id, class, text)] of `finding:` lines for the property"""
+    """[(id, class, text, clauses|None)] of `finding:` lines for the property; `clauses=a,b` (optional) restricts the finding to
+    failures of those spec clauses - any other clause failing on a class input is still a violation"""
     out = []
     for line in open(os.path.join(VERIF, 'KNOWN_FINDINGS.txt')):
-        m = re.match(r'finding: property=(\S+) id=(\S+) class=(\S+) :: (.*)', line.strip())
+        m = re.match(r'finding: property=(\S+) id=(\S+) class=(\S+)(?: clauses=(\S+))? :: (.*)', line.strip())
         if m and m.group(1) == pid:
-            out.append((m.group(2), m.group(3), m.group(4)))
+            out.append((m.group(2), m.group(3), m.group(5), set(m.group(4).split(',')) if m.group(4) else None))
     return out
 
 
